@@ -251,8 +251,10 @@ class Check:
         ev = {"property_id": self.pid, "tier": self.tier, "seed": self.seed, "level": self.LEVEL,
               "coverage": _jsonable(cov), "assumptions": self.assumptions, "wall_s": round(wall, 2),
               "violations": len(self.violations)}
-        os.makedirs(os.path.join(ROOT, "evidence"), exist_ok=True)
-        with open(os.path.join(ROOT, "evidence", self.pid + ".json"), "w") as fh:
+        # runs against a seeded change (VERIF_PINT_ROOT) or with the machinery sabotaged (VERIF_SELFTEST) are not evidence
+        evdir = os.path.join(ROOT, "evidence") if not (os.environ.get("VERIF_PINT_ROOT") or os.environ.get("VERIF_SELFTEST")) else self.scratch
+        os.makedirs(evdir, exist_ok=True)
+        with open(os.path.join(evdir, self.pid + ".json"), "w") as fh:
             json.dump(ev, fh, indent=1, sort_keys=True)
         print("%s %s: states=%d transitions=%d traces=%d evaluations=%d distinct=%d known=%d violations=%d wall=%.1fs" % (
             self.pid, self.tier, self.states, self.transitions, self.traces, self.evaluations,
@@ -301,8 +303,9 @@ class alarm:
 
 def assert_repo_pint():
     import pint
-    if not os.path.realpath(pint.__file__).startswith("/repo/"):
-        raise MachineryError("pint imported from %s, not /repo" % pint.__file__)
+    root = os.environ.get("VERIF_PINT_ROOT", "/repo").rstrip("/") + "/"      # registered commands never set VERIF_PINT_ROOT
+    if not os.path.realpath(pint.__file__).startswith(root):
+        raise MachineryError("pint imported from %s, not %s" % (pint.__file__, root))
     return pint
 
 
